@@ -717,6 +717,9 @@ def run_markup(ctx, model_ok=True):
     # ---- markup.href: matchers, insert_href and the full output / callback events (harness/href_util.py)
     import href_util
     href_util.run_href(ctx, model)
+    # ---- lorem text: generator functions, header and the full output under a recorded stream of draws (harness/lorem_util.py)
+    import lorem_util
+    lorem_util.run_lorem(ctx, model)
 
 
 def replay_markup(ctx, obj):
@@ -728,6 +731,9 @@ def replay_markup(ctx, obj):
     if rp.get('component') in ('href', 'href-events'):
         import href_util
         return href_util.replay_href(rp)
+    if rp.get('component') == 'lorem':
+        import lorem_util
+        return lorem_util.replay_lorem(rp)
     if rp.get('component') != 'markup':
         return None
     abbr, cfg = rp['abbr'], rp.get('config') or {}
